@@ -262,7 +262,11 @@ def _run(spec: PropSpec, ctx: Ctx, explore, failing_input_search) -> int:
         concrete += failing_input_search(ctx, structural[0].what)
     known = [f for f in concrete if f.known_id]
     new = [f for f in concrete if not f.known_id]
+    seen_known = set()
     for f in known:
+        if f.known_id in seen_known:
+            continue
+        seen_known.add(f.known_id)
         print(f"KNOWN-FINDING: property={spec.pid} {f.known_id}: {f.what}")
     rc = 0
     n = 0
